@@ -83,6 +83,7 @@ void lp_polynomial_vector_check_size_for_add(lp_polynomial_vector_t* v) {
 }
 
 void lp_polynomial_vector_push_back(lp_polynomial_vector_t* v, const lp_polynomial_t* p) {
+  lp_polynomial_external_clean(p);
   lp_polynomial_vector_check_size_for_add(v);
   coefficient_construct_copy(v->ctx, v->data + v->size, &p->data);
   v->size ++;
@@ -90,6 +91,7 @@ void lp_polynomial_vector_push_back(lp_polynomial_vector_t* v, const lp_polynomi
 
 void lp_polynomial_vector_push_back_move(lp_polynomial_vector_t* v, lp_polynomial_t* p) {
   assert(lp_polynomial_context_equal(v->ctx, p->ctx));
+  lp_polynomial_external_clean(p);
   lp_polynomial_vector_check_size_for_add(v);
   coefficient_t *v_p = v->data + v->size;
   coefficient_construct_from_int(v->ctx, v_p, 0);
